@@ -52,6 +52,15 @@ namespace occa {
 
     primitive binaryOpNode::evaluate() const {
       primitive pLeft  = leftValue->evaluate();
+      // && and || do not evaluate their right operand when the left one decides the result
+      const bool isAnd = (op.opType & operatorType::and_);
+      const bool isOr  = (op.opType & operatorType::or_);
+      if ((isAnd || isOr) && !pLeft.isNaN() && !pLeft.isPointer()) {
+        const bool left = (bool) pLeft;
+        if (isAnd ? !left : left) {
+          return primitive(left);
+        }
+      }
       primitive pRight = rightValue->evaluate();
       return ((binaryOperator_t&) op)(pLeft, pRight);
     }
